@@ -261,9 +261,15 @@ func c19CheckStruct(b *impl.Binding, env *c19Env, settings []xsel.ContextApply, 
 	})
 	res := xsel.NodeSet{b.ToCur[n]}
 	distinct := ""
-	for depth := 1; depth <= 2; depth++ {
+	for depth := 1; depth <= 3; depth++ {
 		target := reflect.New(st)
 		target.Elem().Field(1).SetString("keep")
+		if depth == 3 {
+			// a target that is being re-used: tagged fields hold old content, which
+			// must be replaced, not extended
+			c19Junk(target.Elem().Field(0))
+			c19Junk(target.Elem().Field(2))
+		}
 		arg := target
 		if depth == 2 {
 			pp := reflect.New(target.Type())
@@ -296,6 +302,39 @@ func c19CheckStruct(b *impl.Binding, env *c19Env, settings []xsel.ContextApply, 
 		}
 	}
 	return "", distinct
+}
+
+// c19Junk fills a field with non-zero old content.
+func c19Junk(v reflect.Value) {
+	if !v.CanSet() {
+		return
+	}
+	switch v.Kind() {
+	case reflect.String:
+		v.SetString("old")
+	case reflect.Bool:
+		v.SetBool(true)
+	case reflect.Int, reflect.Int8, reflect.Int16, reflect.Int32, reflect.Int64:
+		v.SetInt(77)
+	case reflect.Uint, reflect.Uint8, reflect.Uint16, reflect.Uint32, reflect.Uint64:
+		v.SetUint(77)
+	case reflect.Float32, reflect.Float64:
+		v.SetFloat(7.7)
+	case reflect.Slice:
+		el := reflect.New(v.Type().Elem()).Elem()
+		c19Junk(el)
+		v.Set(reflect.Append(reflect.MakeSlice(v.Type(), 0, 4), el, el))
+	case reflect.Pointer:
+		p := reflect.New(v.Type().Elem())
+		c19Junk(p.Elem())
+		v.Set(p)
+	case reflect.Struct:
+		for i := 0; i < v.NumField(); i++ {
+			if v.Type().Field(i).Tag.Get("xsel") != "" {
+				c19Junk(v.Field(i))
+			}
+		}
+	}
 }
 
 func c19Settings(b *impl.Binding) []xsel.ContextApply {
@@ -436,6 +475,8 @@ func C19(c *run.Check) {
 		{"slice by value", one, []string{}}, {"*[][]int", one, &[][]int{}}, {"unexported tagged field", one, &c19Unexported{}}, {"unexported tagged field (mixed)", one, &c19UnexportedMixed{}},
 		{"empty node-set into struct", xsel.NodeSet{}, &c19Leaf{}}, {"two nodes into struct", xsel.NodeSet{one[0], one[0]}, &c19Leaf{}}, {"number into struct", xsel.Number(1), &c19Leaf{}},
 		{"string into slice", xsel.String("x"), &[]string{}}, {"nil result into struct", nil, &c19Leaf{}}, {"nil result into slice", nil, &[]string{}}, {"**struct with nil inner", one, &nilLeaf},
+		{"**slice with nil inner", one, &nilSlice}, {"***struct with nil inner", one, func() interface{} { p := &nilLeaf; return &p }()}, {"**int with nil inner", one, &ip},
+		{"**[]struct with nil inner", one, func() interface{} { var p *[]c19Leaf; return &p }()},
 		{"interface holding struct", one, interface{}(c19Leaf{})}, {"*interface", one, new(interface{})}, {"unsafe nil map field", one, &struct {
 			M map[string]string `xsel:"."`
 		}{}}, {"array field", one, &struct {
